@@ -29,20 +29,42 @@ def feasible_orders(ctx, N, P):
     return sorted(set(tuple(t[1]) for t in res.tuples('ORDER')))
 
 
-def base_scenario(rng, N, P):
-    clen = rng.randint(1, 3)
-    ncell = (N - 1) * clen + rng.randint(1, clen)
-    s = maptrace.gen_scenario(rng, max_levels=3, max_leaves=6, min_leaves=2, ncell=ncell,
-                              cfg={'chunk': clen, 'P': P, 'drop': None, 'flatten': False})
-    if len(s['tree']['nodes'][0]) == 1:
-        s['tree'] = maptrace.random_tree(rng, 1, 5, 2)
-        s['means'] = {str(l): [rng.randint(0, 4) for _ in range(s['G'])] for l in s['tree']['nodes'][-1]}
-        s['markers'] = {'0/0': s['markers']['0/0']}
-    safe_markers(rng, s)
-    s['cfg']['B'] = rng.randint(2, 6)
-    s['cfg']['fnum'] = rng.randint(3, 9)
-    # chunk length must come out as clen: ceil(n/P) >= clen
+def rich_tree():
+    """3 levels, two classes x two subclasses x two clusters: several non-root parents with a choice"""
+    return {'hier': [1, 2, 3], 'keys': [1, 2, 3], 'nodes': [[1, 2], [1, 2, 3, 4], list(range(1, 9))],
+            'kids': [[[1, [1, 2]], [2, [3, 4]]], [[1, [1, 2]], [2, [3, 4]], [3, [5, 6]], [4, [7, 8]]],
+                     [[n, []] for n in range(1, 9)]], 'cells': [[n, []] for n in range(1, 9)]}
+
+
+def base_scenario(rng, N, P, rich=True):
+    """a scenario with exactly N chunks on P workers.  `rich`: 12 genes with values 0..9, a 3-level
+    tree, bootstrap factor 1/2 and 10 iterations, so that different random streams, vote orders or
+    accumulation orders change the output with overwhelming probability (no TLC arithmetic is done on
+    these values: the runs are only compared with each other)."""
     import math
+    clen = rng.randint(2, 4) if rich else rng.randint(1, 3)
+    ncell = (N - 1) * clen + rng.randint(1, clen)
+    if rich:
+        s = maptrace.gen_scenario(rng, tree=rich_tree(), ncell=ncell, G=12, vmax=9,
+                                  cfg={'chunk': clen, 'P': P, 'drop': None, 'flatten': False})
+        s['qgenes'] = rng.sample(range(1, 13), 12) + [13]
+        s['Q'] = [[rng.randint(0, 9) for _ in s['qgenes']] for _ in s['cells']]
+        s['markers'] = {'0/0': sorted(rng.sample(range(1, 13), 8))}
+        for l, nodes in ((1, [1, 2]), (2, [1, 2, 3, 4])):
+            for n in nodes:
+                s['markers'][f'{l}/{n}'] = sorted(rng.sample(range(1, 13), 6))
+        s['cfg'].update(B=10, fnum=5, fden=10, K=3, minm=1)
+    else:
+        s = maptrace.gen_scenario(rng, max_levels=3, max_leaves=6, min_leaves=2, ncell=ncell,
+                                  cfg={'chunk': clen, 'P': P, 'drop': None, 'flatten': False})
+        if len(s['tree']['nodes'][0]) == 1:
+            s['tree'] = maptrace.random_tree(rng, 1, 5, 2)
+            s['means'] = {str(l): [rng.randint(0, 4) for _ in range(s['G'])] for l in s['tree']['nodes'][-1]}
+            s['markers'] = {'0/0': s['markers']['0/0']}
+        safe_markers(rng, s)
+        s['cfg']['B'] = rng.randint(2, 6)
+        s['cfg']['fnum'] = rng.randint(3, 9)
+    # chunk length must come out as clen: ceil(n/P) >= clen
     if min(max(1, math.ceil(ncell / P)), clen) != clen or len(pooltrace.chunk_starts(s)[0]) != N:
         return None
     return s
